@@ -439,6 +439,12 @@ func contentEq(arrA, offA, arrB, offB, n *Term) *Term {
 		return all
 	}
 	qf := &Term{Leaf: fresh("qfeq"), W: 0, QDef: all}
+	// The same fact without a quantifier: the two byte sequences have the same identity. seqId maps (array, offset,
+	// length) into an uninterpreted sort; under the interpretation "the sequence itself" qf <=> identities equal, so
+	// the equivalence is a sound axiom — and it makes symmetry and transitivity of content equality (chains of
+	// string comparisons) plain equality reasoning for every solver.
+	DeclareUF("seqId", []string{byteArrSort, "I64", "I64"}, "SeqId")
+	qf.Link = Eq(UFSort("seqId", "SeqId", arrA, offA, n), UFSort("seqId", "SeqId", arrB, offB, n))
 	contentEqMemo[key] = qf
 	return qf
 }
